@@ -397,7 +397,7 @@ def check_C12(ctx):
     from harness import layer_select
     res = runner.memo('select', ctx, lambda: layer_select.run(ctx))
     viol = [{'clause': f['fails'][0][0].split(':')[0], 'all_clauses': sorted({c[0] for c in f['fails']}), 'where': 'settings %d' % f['tid'],
-             'payload': {'layer': 'select', 's': f['s'], 'enc': f.get('enc'), 'limit': f.get('limit'), 'selected': f.get('selected')}} for f in res['fails']]
+             'payload': {'layer': 'select', 's': f['s'], 'enc': f.get('enc'), 'limit': f.get('limit'), 'eager_max': f.get('eager_max'), 'selected': f.get('selected')}} for f in res['fails']]
     cov = {'states': res['states'], 'transitions': res['transitions'], 'traces_validated_against_impl': res['n_traces'] + res['key_pairs'],
            'samples': res['samples'], 'evaluations': res['selections'] + res['key_pairs'], 'distinct_nontrivial': res['n_traces'],
            'rule': 'SelectorCache.tla is model-checked (transparent with an injective key, violated without; torn read with non-atomic '
@@ -433,10 +433,13 @@ def _replay_select(payload):
             r = drive_select.drive_keypair(sd['a'], sd['b'], sd['kind'], tid=0)
             r['rkind'] = 'keypair'
             return _t.run_monitor('Mon_Select', [r], cfg='Mon_Select.cfg', shards=1)['verdicts'][0][2]
-        limits = ([payload['limit']] if payload.get('limit') else []) + [2.0, 0.0005, 'sched:all', 'sched:nonlazy']
+        limits = ([payload['limit']] if payload.get('limit') else []) + [2.0, 0.0005, 'sched:all', 'sched:nonlazy', 'sched:lazy']
         traces = []
+        eagers = [payload.get('eager_max')] * len(limits)
+        limits.append('sched:lazy')
+        eagers.append(2)
         for i, limit in enumerate(limits):
-            t = drive_select.drive(sd, wd, tid=i, limit=limit, other=None)
+            t = drive_select.drive(sd, wd, tid=i, limit=limit, other=None, eager_max=eagers[i])
             if 'skip' in t:
                 return []
             traces.append(t)
